@@ -952,6 +952,11 @@ func (ds *AnySource) PrepareRun(Npresamples int, Nsamples int) error {
 			ts = &defaultTS
 		}
 		dsp.TriggerState = *ts
+		// The installed TriggerState carries its own copy of the record lengths (EMTState), which
+		// also sizes the history kept between data blocks: keep it in sync, as ConfigureTrigger does.
+		dsp.EMTState.nsamp = int32(Nsamples)
+		dsp.EMTState.npre = int32(Npresamples)
+		dsp.EMTState.reset()
 
 		// Publish Records and Record Summaries over ZMQ. Not optional at this time.
 		dsp.SetPubRecords()
